@@ -933,7 +933,7 @@ impl Prop for ReaderProp {
         for plan in [SourceCfg::one_shot(), SourceCfg::bytewise()] {
             let mut p = plan;
             p.fail_at = case.src.fail_at;
-            if p != case.src {
+            if p.rank() < case.src.rank() {
                 let mut c = case.clone();
                 c.src = p;
                 out.push(c);
